@@ -183,6 +183,29 @@ Theorem C17_serve_returns_closed :
 Proof. exact serve_return_closed. Qed.
 Print Assumptions C17_serve_returns_closed.
 
+(* graceful shutdown makes progress.  From every reachable state in which Shutdown is in progress and no
+   connection is in state `handling` (no handler running, no exchange in progress), Shutdown returns --
+   nil, unless closing its listener had failed -- by its OWN steps alone ([is_sd]): no step of any other
+   goroutine is needed, in particular none that needs the mutex Shutdown holds.  And a connection whose
+   exchange ended abnormally while Shutdown polls (handler panicked, reply write failed) leaves state
+   `handling` by at most two steps of its own goroutine (report the error, handle()'s deferred
+   Store(closed)), neither of which needs the mutex and which change nothing else: so Shutdown cannot be
+   made to sit until its context expires by a connection that has ended.  The trace validation rejects
+   a log in which a Shutdown with a generous context returns the context's error. *)
+Theorem C17_shutdown_progress :
+  forall k s, reach GuardNow k s -> sd_busy (sd s) = true -> quiet s ->
+  exists ls s', run GuardNow k s ls = Some s' /\ forallb is_sd ls = true /\
+                sd s' = SdReturned (if sd_err s then EOther else ENil) /\ mu s' = false.
+Proof. exact shutdown_progress. Qed.
+Print Assumptions C17_shutdown_progress.
+Theorem C17_ended_exchange_needs_no_mutex :
+  forall k s c x, reach GuardNow k s -> get s c = Some x -> cst x = CHandling -> handling_ph (ph x) = false ->
+  exists ls s' x', run GuardNow k s ls = Some s' /\ Forall (fun l => l = LErrCb c \/ l = LConnLeave c) ls /\
+                   get s' c = Some x' /\ cst x' = CClosed /\ sd s' = sd s /\ mu s' = mu s /\
+                   (forall d, d <> c -> get s' d = get s d).
+Proof. exact ended_exchange_leaves_handling. Qed.
+Print Assumptions C17_ended_exchange_needs_no_mutex.
+
 (* orderings the accounting and the graceful shutdown rest on (and which the trace validation
    therefore enforces on the real server): trackConn(c,true) precedes the next Accept; the state atom
    stays `handling` until the reply is written (Store(idle) after Write) -- part of
